@@ -202,15 +202,20 @@ func MsgChangeParam() *rapid.Generator[*govTypes.MsgChangeParam] {
 	})
 }
 
-// MsgDAOTransfer draws a DAO transfer or burn (burns may leave ToAddress nil).
+// MsgDAOTransfer draws a DAO transfer or burn (burns may leave ToAddress nil). The amount stays within
+// int64: MsgDAOTransfer.ValidateBasic calls Amount.Int64(), which panics ("Int64() out of bound") above it.
 func MsgDAOTransfer() *rapid.Generator[*govTypes.MsgDAOTransfer] {
 	return rapid.Custom(func(t *rapid.T) *govTypes.MsgDAOTransfer {
+		amount := sdk.NewInt(rapid.Int64Range(1, 1<<62).Draw(t, "amount"))
+		if rapid.IntRange(0, 7).Draw(t, "maxAmount") == 0 {
+			amount = sdk.NewInt(1<<63 - 1)
+		}
 		if rapid.Bool().Draw(t, "burn") {
 			return &govTypes.MsgDAOTransfer{FromAddress: Address().Draw(t, "from"), ToAddress: OptAddress().Draw(t, "to"),
-				Amount: PosInt().Draw(t, "amount"), Action: govTypes.DAOBurnString}
+				Amount: amount, Action: govTypes.DAOBurnString}
 		}
 		return &govTypes.MsgDAOTransfer{FromAddress: Address().Draw(t, "from"), ToAddress: Address().Draw(t, "to"),
-			Amount: PosInt().Draw(t, "amount"), Action: govTypes.DAOTransferString}
+			Amount: amount, Action: govTypes.DAOTransferString}
 	})
 }
 
